@@ -69,7 +69,7 @@ fn delivery_oracle(lock: &Lock, sc: &Scenario, quiescent: bool) -> Vec<(String, 
     let mut out = vec![];
     let scripts = pid_scripts(lock, sc);
     let script_pid: HashMap<usize, usize> = scripts.iter().map(|(p, s)| (*s, *p)).collect();
-    let counts = g::send_counts(sc);
+    let counts = g::send_tag_counts(sc);
     let logs = receiver_logs(&lock.sim);
     let result_ok = |pid: usize| -> bool {
         for w in &lock.sim.workers {
@@ -104,7 +104,7 @@ fn delivery_oracle(lock: &Lock, sc: &Scenario, quiescent: bool) -> Vec<(String, 
         }
         // completeness at quiescence: every send of a finished sender has arrived
         if quiescent && *has_log {
-            for ((s, rr), n) in &counts {
+            for ((s, rr, tag), n) in &counts {
                 if rr != r {
                     continue;
                 }
@@ -112,11 +112,11 @@ fn delivery_oracle(lock: &Lock, sc: &Scenario, quiescent: bool) -> Vec<(String, 
                 if !result_ok(*spid) {
                     continue;
                 }
-                let got = per.get(&(*s as u64)).map(|v| v.len() as u64).unwrap_or(0);
+                let got = per.get(tag).map(|v| v.len() as u64).unwrap_or(0);
                 if got != *n {
                     out.push((
                         "oracle=fifo-exactly-once".to_string(),
-                        format!("at quiescence receiver pid {pid} (script {r}) has {got} messages from finished sender script {s}, which sent {n}"),
+                        format!("at quiescence receiver pid {pid} (script {r}) has {got} messages with tag {tag} from finished sender script {s}, which sent {n}"),
                     ));
                 }
             }
@@ -202,6 +202,7 @@ fn run_one(
     }
     sim.schedule.clear();
     let mut lock = Lock::new(sim, Some(model));
+    lock.mixed = sc.has_b();
     lock.ask_model(init_line(sc, n, req), "init");
     let mut result = None;
     let done = |s: &mut qverif::sim::Sim| {
